@@ -44,7 +44,7 @@ func fullKey(f *ssa.Function) string { return fnPkgPath(f) + "." + calleeKey(f) 
 // contractFor finds the contract that governs a call, or nil.
 func (g *Gen) contractFor(call *ssa.CallCommon) *Contract {
 	if call.IsInvoke() {
-		t := call.Value.Type()
+		t := types.Unalias(call.Value.Type())
 		if n, ok := t.(*types.Named); ok {
 			pkg := ""
 			if n.Obj().Pkg() != nil {
@@ -300,8 +300,34 @@ func (g *Gen) stdSpecial(st *State, name string, call *ssa.CallCommon, result ss
 		g.setResult(result, Val{T: r, Kind: "err"})
 		g.trustedUsed[name+": returns a non-nil error; no panic"] = true
 		return true
+	case modulePath + "/pkg/pdfcpu/fault.Catch":
+		// recover() is nil unless the function is panicking: on the normal path Catch does nothing; on
+		// the exceptional path it may store the panic in *err (and stop a fault.Panic - the analysis
+		// keeps treating that exit as exceptional, which only adds obligations).
+		if pv := st.ghost["$panicking"]; pv.T != "false" {
+			a := g.val(st, call.Args[0])
+			if a.Kind == "ptr" && a.Cell != nil {
+				st.cells[a.Cell] = g.symFor(a.Cell.Type().(*types.Pointer).Elem(), "caught", st)
+			}
+		}
+		g.trustedUsed["fault.Catch: no effect unless panicking (recover() == nil); never panics on the normal path"] = true
+		return true
 	case "io.Copy", "io.CopyN":
 		return g.ioCopy(st, name, call, result)
+	case "errors.Is":
+		// errors.Is(err, os.ErrNotExist / os.ErrExist / other sentinel): a predicate of err per sentinel
+		if u, ok := call.Args[1].(*ssa.UnOp); ok {
+			if gl, ok := u.X.(*ssa.Global); ok {
+				e := g.val(st, call.Args[0])
+				tgt := g.val(st, call.Args[1])
+				isX := g.uf("is"+gl.Name(), 1, "Bool")
+				g.assume(st, fmt.Sprintf("(%s %s)", isX, tgt.T)) // the sentinel is an instance of itself
+				r := fmt.Sprintf("(and (not (= %s 0)) (%s %s))", e.T, isX, e.T)
+				g.setResult(result, boolV(g.def("errIs", "Bool", r)))
+				g.trustedUsed["errors.Is(err, Sentinel) is the predicate isSentinel(err) (true for the sentinel itself, false for nil)"] = true
+				return true
+			}
+		}
 	case "strings.ContainsRune":
 		if c, ok := call.Args[0].(*ssa.Const); ok {
 			str := constant.StringVal(c.Value)
@@ -368,6 +394,7 @@ func (g *Gen) callCommon(fn *ssa.Function, st *State, call *ssa.CallCommon, resu
 	}
 	callee := call.StaticCallee()
 	cc := g.contractFor(call)
+	var specParams []string
 	dispName := "call"
 	var args []Val
 	for _, a := range call.Args {
@@ -397,8 +424,24 @@ func (g *Gen) callCommon(fn *ssa.Function, st *State, call *ssa.CallCommon, resu
 			return
 		}
 		dispName = "funcvalue"
+		if fv.FnSpec != "" {
+			if specKey, ok := g.cs.FieldSpecs[fv.FnSpec]; ok {
+				if bc := g.cs.ByKey[specKey]; bc != nil {
+					cc = bc
+					specParams = bc.Params
+					dispName = fv.FnSpec
+				}
+			}
+		}
 	}
 	names, tys := sigNames(call)
+	if specParams != nil { // behaviour spec of a function value: parameters bind by position
+		for i := range names {
+			if i < len(specParams) {
+				names[i] = specParams[i]
+			}
+		}
+	}
 	env := map[string]Val{}
 	for k, v := range g.entryGhostEnv() {
 		_ = k
@@ -539,7 +582,7 @@ func (g *Gen) callCommon(fn *ssa.Function, st *State, call *ssa.CallCommon, resu
 	if cc == nil {
 		g.unmodelled["uncontracted call "+dispName+" (havoc, may panic)"] = true
 	}
-	if g.c != nil && top {
+	if g.c != nil { // also inside deferred closures and inlined helpers of the function under contract
 		for _, gs := range g.c.GhostSet {
 			if gs[0] != dispName {
 				continue
@@ -632,7 +675,19 @@ func (g *Gen) havocByContract(st *State, cc *Contract, env map[string]Val, args 
 		g.havocAllFields(st)
 		g.havocHs(st, nil, true)
 		g.havocMaps(st)
+		kept := map[string]Val{}
+		if g.c != nil {
+			for _, k := range g.c.Keeps {
+				kept[k] = st.ghost[k]
+			}
+			if len(kept) > 0 {
+				g.trustedUsed["callees of "+g.short+" that have no contract are assumed not to change "+strings.Join(g.c.Keeps, " ")+" (they write only through the writer they are given)"] = true
+			}
+		}
 		g.havocAllGhost(st)
+		for k, v := range kept {
+			st.ghost[k] = v
+		}
 		havocArgCells()
 		for _, k := range sortedKeys(g.globInit) {
 			if v := g.globInit[k]; v.Kind == "int" || v.Kind == "bool" || v.Kind == "opaque" {
